@@ -618,3 +618,45 @@ def _gen_get_grad(cls_name):
 _gen_get_grad('ModuleHelper')
 GENS['kfac.layers.modules:ModuleHelper.get_grad#linear'] = GENS['kfac.layers.modules:ModuleHelper.get_grad']
 _gen_get_grad('Conv2dModuleHelper')
+
+
+# ----------------------------------------------------------------------------- preconditioner with preconditioned gradients
+def mixed_model(rng):
+    import torch
+    mods = []
+    kind = rng.randrange(4)
+    if kind == 0:
+        mods = [torch.nn.Linear(4, 3, bias=False), torch.nn.ReLU(), torch.nn.Linear(3, 2, bias=True)]
+    elif kind == 1:
+        mods = [torch.nn.Linear(4, 3, bias=True), torch.nn.ReLU(), torch.nn.Linear(3, 3, bias=False), torch.nn.Linear(3, 2, bias=rng.random() < 0.5)]
+    elif kind == 2:
+        mods = [torch.nn.Conv2d(1, 2, 3, bias=False), torch.nn.Flatten(), torch.nn.Linear(2 * 2 * 2, 2, bias=True)]
+    else:
+        mods = [torch.nn.Linear(4, 2, bias=rng.random() < 0.5)]
+    return torch.nn.Sequential(*mods), (torch.randn(3, 1, 4, 4) if kind == 2 else torch.randn(5, 4))
+
+
+def precond_with_grads(rng, **kw):
+    """A real KFACPreconditioner after one forward/backward pass with preconditioned gradients computed."""
+    import torch
+    from kfac.preconditioner import KFACPreconditioner
+    torch.manual_seed(rng.randrange(1 << 30))
+    model, x = mixed_model(rng)
+    method = rng.choice(['eigen', 'inverse'])
+    p = KFACPreconditioner(model, compute_method=method, lr=rng.choice([0.1, 1.0, 0.5, 2]),
+                           kl_clip=rng.choice([0.001, 0.01, 1.0, 10.0]), **kw)
+    model(x).sum().backward()
+    for name, layer in reversed(list(p._layers.values())):
+        layer.compute_a_inv(damping=p.damping)
+        layer.compute_g_inv(damping=p.damping)
+        layer.preconditioned_grad(damping=p.damping)
+    return p
+
+
+@gen('kfac.base_preconditioner:BaseKFACPreconditioner._compute_grad_scale')
+def _gen_grad_scale(rng, model):
+    from kfac.base_preconditioner import BaseKFACPreconditioner
+    p = precond_with_grads(rng)
+    if rng.random() < 0.1:
+        list(p._layers.values())[0][1].grad = None
+    return Case(BaseKFACPreconditioner._compute_grad_scale, {'self': p}, [p], {})
